@@ -27,7 +27,7 @@ def snapshot(b, d):
     return {b.display_name(n): (n.attr, len(n.content) if n.kind == "file" else 0, 1 if n.kind == "dir" else 0, fmt_c(n.ctime), fmt_m(n.mtime),
                                 fmt_a(n.adate), b.sfn_display(n, lower=False)) for n in d.children}
 
-def traversal(b, base_h=100, extra=None):
+def traversal(b, base_h=100, extra=None, optional=frozenset()):
     """extra: {dir path tuple: set of names the library added there}"""
     dirs, files = [], []
     walk(b, b.root, [], dirs, files)
@@ -38,12 +38,12 @@ def traversal(b, base_h=100, extra=None):
         if path:
             h += 1
             lines += ["open_dir 0 %s %d" % (hexs("/".join(path)), h), "list %d" % h, "drop_dir %d" % h]
-            expect += [None, ("list", snapshot(b, d), False, ex), None]
+            expect += [None, ("list", snapshot(b, d), False, ex, optional), None]
         else:
-            lines += ["list 0"]; expect += [("list", snapshot(b, d), True, ex)]
+            lines += ["list 0"]; expect += [("list", snapshot(b, d), True, ex, optional)]
     for path, n in files:
         h += 1
-        lines += ["open_file 0 %s %d" % (hexs("/".join(path)), h), "read_all %d 400000" % h, "extents %d" % h, "drop_file %d" % h]
+        lines += ["open_file 0 %s %d" % (hexs("/".join(path)), h), "read_all %d 4000000" % h, "extents %d" % h, "drop_file %d" % h]
         expect += [None, ("read", n), ("extents", n), None]
     return lines, expect
 
@@ -56,12 +56,12 @@ def check_traversal(rep, b, ops, expect, script, label):
         if ex is None:
             continue
         if ex[0] == "list":
-            want, is_root, added = ex[1], ex[2], ex[3]
+            want, is_root, added, optional = ex[1], ex[2], ex[3], ex[4]
             got = {}
             for e in o.extra:
                 nm = bytes.fromhex(e[8]).decode("utf-8") if e[8] != "-" else ""
                 got[nm] = e
-            extra = set(got) - set(want) - ({".", ".."} if not is_root else set()) - added
+            extra = set(got) - set(want) - ({".", ".."} if not is_root else set()) - added - set(optional)
             if added - set(got):
                 rep.violation("[C08 %s] objects created through the library are not listed: %r" % (label, sorted(added - set(got))), {"script": script}); return False
             if extra or set(want) - set(got):
@@ -112,7 +112,7 @@ def run(rep, tier, seed):
         open(path, "w").write(b.sparse_text())
         key = "fat%d bps%d spc%d fats%d %s" % (b.bits, b.bps, b.spc, b.fats, "mirror" if b.mirror else "active%d" % b.active)
         kinds[key] = kinds.get(key, 0) + 1
-        fat_len = len(b.fat_raw) + (1 if b.bits == 12 else 0)
+        fat_len = b.spf * b.bps
         dumps = ["dump %d %d" % ((b.reserved + k * b.spf) * b.bps, fat_len) for k in range(b.fats)]
         t1, e1 = traversal(b)
         # modification through the library: new objects only, plus removal of one existing file
@@ -126,6 +126,10 @@ def run(rep, tier, seed):
                "create_dir 0 %s 0" % hexs(newd), "create_file 0 %s 91" % hexs(newd + "/x.txt"), "write_pat 91 10 1", "drop_file 91"]
         if victim:
             mut.append("remove 0 %s" % hexs("/".join(victim[0])))
+        if b.nearfull:
+            # more than what is left: the scan must reach the end of the table and report NotEnoughSpace, nothing else
+            victim = None
+            mut = ["create_file 0 %s 90" % hexs(newf), "write_pat 90 %d 3" % (40 * b.cs), "drop_file 90"]
         head = ["dev %d 0" % (b.vol_bytes + 4096), "wlog 0", "load %s" % path, "pages", "wlog 1"] + dumps + ["mount 1 0 table", "label_root"]
         s = head + t1 + ["stats"] + mut + ["drop_all", "unmount"] + dumps + ["mount 1 0 table"]
         # second traversal against the updated truth
@@ -133,7 +137,8 @@ def run(rep, tier, seed):
             for pth, d in dirs:
                 if victim[1] in d.children:
                     d.children.remove(victim[1])
-        t2, e2 = traversal(b, base_h=500, extra={tuple(dpath): {"added by the library (long name).bin", "NEWDIR"}})
+        t2, e2 = traversal(b, base_h=500, extra={tuple(dpath): ({"added by the library (long name).bin", "NEWDIR"} if not b.nearfull else set())},
+                           optional={"added by the library (long name).bin"} if b.nearfull else set())
         s += t2 + ["unmount"]
         scripts.append(s)
         metas.append((b, len(head), len(t1), e1, len(mut), e2, victim, key))
@@ -156,7 +161,17 @@ def run(rep, tier, seed):
                           {"script": jd.script[:nhead + nt1 + 1]}); continue
         m0 = nhead + nt1 + 1
         mops = ops[m0:m0 + nmut + 2]
-        bad = [o for o in mops if o.kind != "ok"]
+        bad = [o for o in mops if o.kind != "ok" and not (b.nearfull and o.kind == "err" and o.payload.startswith("NotEnoughSpace"))]
+        # nothing may be written outside the volume's structures, whatever the outcome
+        stray = [(oi, r) for oi in range(m0, m0 + nmut + 2) for r in jd.regions.get(oi, []) if r[0].split(":")[0] in ("outside", "tail", "boot") or r[1].split(":")[0] in ("outside", "tail", "boot")]
+        if stray:
+            oi, r = stray[0]
+            rep.violation("[C08 %s] %s writes %d bytes at device offset %d: %s" % (label, sc.short(ops[oi].line, 50), r[4], r[3], r[0]), {"script": jd.script[:oi + 1]}); continue
+        if bad and bad[0].kind == "err" and bad[0].payload.split(" ")[0] in ("WriteZero", "NotEnoughSpace") and b.bits != 32 \
+                and "fixed-root-full-writezero" in sc.KF:
+            # the small fixed root of this image is full (or the volume is): recorded finding D5, nothing more is claimed for this image
+            rep.known_finding(sc.kf_text("fixed-root-full-writezero"))
+            continue
         if bad:
             rep.violation("[C08 %s] modifying the foreign volume failed: %s -> %s %s" % (label, sc.short(bad[0].line, 50), bad[0].kind, bad[0].payload[:40]),
                           {"script": jd.script[:m0 + nmut + 2]}); continue
@@ -193,6 +208,10 @@ def run(rep, tier, seed):
                 if c < 2 or not (was_free or c in victim_chain):
                     rep.violation("[C08 %s] FAT entry %d (value %x, not free and not part of the removed file) was changed to %x" % (label, c, eb[c], ea[c]),
                                   {"script": jd.script[:last_m + 3]}); ok = False; break
+        if ok:
+            nbytes = {12: ((b.clusters + 2) * 3 + 1) // 2, 16: (b.clusters + 2) * 2, 32: (b.clusters + 2) * 4}[b.bits]
+            if before[act][nbytes + 1:] != after[act][nbytes + 1:]:
+                rep.violation("[C08 %s] spare FAT entries after the last cluster (%d) were written" % (label, b.clusters + 1), {"script": jd.script[:last_m + 3]}); ok = False
         if not ok:
             continue
         t2_start = last_m + 1 + nd + 1
